@@ -7,6 +7,7 @@
 //   VF_OUT, VF_TIER); the semantic oracle is inside the target and traps on a deciding failure.
 #include "vf.hpp"
 #include <unistd.h>
+#include <fcntl.h>
 #include <csignal>
 #include <ctime>
 #include <unordered_set>
@@ -62,7 +63,12 @@ const char *signame(int s) {
 }
 
 // returns true when the case passed (or was abandoned for a non-deciding reason)
+int g_curfd = -2;
 bool exec_case(const uint8_t *d, size_t n, FailInfo &fi) {
+    // keep the bytes of the case being executed on disk: if the process dies inside the library
+    // (fatal sanitizer error, crash in a worker thread) the driver still has the replay input
+    if (g_curfd == -2) { const char *cf = getenv("VF_CURFILE"); g_curfd = cf ? open(cf, O_CREAT | O_RDWR | O_TRUNC, 0600) : -1; }
+    if (g_curfd >= 0) { if (ftruncate(g_curfd, 0) == 0) { ssize_t w = pwrite(g_curfd, d, n, 0); (void)w; } }
     Ctx &c = g_ctx;
     c.reset_case();
     Src s(d, n);
@@ -285,6 +291,7 @@ int main(int argc, char **argv) {
         fprintf(stderr, "VF-FAIL sig=%s cls=%s file=%s\n  %s\n", last.sig.c_str(), last.cls.c_str(), p.c_str(), last.msg.c_str());
     }
     write_stats(fails, nullptr, ok ? "done" : "fail");
+    if (const char *cf = getenv("VF_CURFILE")) unlink(cf);
     if (!fails.empty()) { std::string p = g_out + ".fail"; FILE *f = fopen(p.c_str(), "w"); if (f) { fprintf(f, "%s\n", save_fail(last, "pbt").c_str()); fclose(f); } }
     return ok ? 0 : 1;
 }
